@@ -39,6 +39,8 @@ func runC13(p *Prog, r *Report) {
 	prefixBitsVsConstant(p, r, "R13.6-family-dependent-host-test")
 	c13DecodedArgument(p, r, "R13.7-decoded-argument")
 	c13EntityFieldFlow(p, r, "R13.8-entity-field-flow")
+	c13DecodersReplace(p, r, "R13.9-decoders-replace")
+	c13CoercionExhaustive(p, r, "R13.10-coercion-exhaustive")
 	c13ImplicitEntity(p, r)
 }
 
@@ -702,5 +704,147 @@ func c13EntityFieldFlow(p *Prog, r *Report, rule string) {
 	}
 	if n < 4 {
 		r.Undec(rule, "types.Entity.MarshalJSON:members", "-", "expected the four members uid/parents/attrs/tags, extracted "+itoa(n))
+	}
+}
+
+// R13.9: a decoder replaces what it decodes into. An UnmarshalJSON method may assign its receiver (as a whole or field
+// by field) but must not update collections it finds there: inserting into the receiver's existing map merges the new
+// document with whatever the variable held — and with every copy that shares that map.
+func c13DecodersReplace(p *Prog, r *Report, rule string) {
+	n := 0
+	for _, fn := range p.Funcs {
+		pp := fnPkgPath(fn)
+		if (pp != pTypes && pp != pMapset && pp != pXTypes && pp != pRoot) || fn.Parent() != nil || fnBase(fn) != "UnmarshalJSON" || fn.Signature.Recv() == nil || len(fn.Params) == 0 || (fn.Synthetic != "" && !strings.HasPrefix(fn.Synthetic, "instance")) {
+			continue
+		}
+		n++
+		recv := fn.Params[0]
+		fromRecv := map[ssa.Value]bool{recv: true}
+		for changed := true; changed; {
+			changed = false
+			forEachInstr(fn, func(in ssa.Instruction) {
+				v, ok := in.(ssa.Value)
+				if !ok || fromRecv[v] {
+					return
+				}
+				switch x := in.(type) {
+				case *ssa.UnOp:
+					if fromRecv[x.X] {
+						fromRecv[v], changed = true, true
+					}
+				case *ssa.FieldAddr:
+					if fromRecv[x.X] {
+						fromRecv[v], changed = true, true
+					}
+				case *ssa.Field:
+					if fromRecv[x.X] {
+						fromRecv[v], changed = true, true
+					}
+				case *ssa.ChangeType:
+					if fromRecv[x.X] {
+						fromRecv[v], changed = true, true
+					}
+				case *ssa.Convert:
+					if fromRecv[x.X] {
+						fromRecv[v], changed = true, true
+					}
+				}
+			})
+		}
+		bad := ""
+		forEachInstr(fn, func(in ssa.Instruction) {
+			switch x := in.(type) {
+			case *ssa.MapUpdate:
+				if fromRecv[x.Map] {
+					bad = "inserts into a map found in the receiver"
+				}
+			case ssa.CallInstruction:
+				g := x.Common().StaticCallee()
+				if g == nil || !p.inRepo(g) || g.Signature.Recv() == nil || fnBase(g) == "UnmarshalJSON" {
+					return
+				}
+				if _, isPtr := g.Signature.Recv().Type().Underlying().(*types.Pointer); !isPtr {
+					return
+				}
+				if len(x.Common().Args) > 0 && fromRecv[x.Common().Args[0]] && x.Common().Args[0] != ssa.Value(recv) {
+					if writesReceiver(g) {
+						bad = "calls the mutator " + fnShort(g) + " on state found in the receiver"
+					}
+				}
+				if len(x.Common().Args) > 0 && x.Common().Args[0] == ssa.Value(recv) && writesReceiverMapInPlace(g) {
+					bad = "calls " + fnShort(g) + ", which updates the receiver's collection in place"
+				}
+			}
+		})
+		r.Check(bad == "", rule, fnQual(fn), p.pos(fn.Pos()), "the receiver is assigned, never updated in place",
+			fnQual(fn)+" "+bad+" instead of replacing it: decoding into a variable that already holds a value merges old and new content (and changes every copy that shares the collection)")
+	}
+	if n < 8 {
+		r.Undec(rule, "json-decoders", "-", "expected at least 8 UnmarshalJSON methods in scope, found "+itoa(n))
+	}
+}
+
+// writesReceiver: a pointer-receiver method that stores through its receiver or updates a map reached from it.
+func writesReceiver(g *ssa.Function) bool {
+	if g.Blocks == nil || len(g.Params) == 0 {
+		return false
+	}
+	w := false
+	recv := g.Params[0]
+	forEachInstr(g, func(in ssa.Instruction) {
+		switch x := in.(type) {
+		case *ssa.Store:
+			if x.Addr == ssa.Value(recv) {
+				w = true
+			}
+			if fa, ok := x.Addr.(*ssa.FieldAddr); ok && fa.X == ssa.Value(recv) {
+				w = true
+			}
+		case *ssa.MapUpdate:
+			w = true
+		}
+	})
+	return w
+}
+
+// writesReceiverMapInPlace: updates a map loaded from the receiver (as opposed to assigning the receiver).
+func writesReceiverMapInPlace(g *ssa.Function) bool {
+	if g.Blocks == nil || len(g.Params) == 0 {
+		return false
+	}
+	w := false
+	recv := g.Params[0]
+	forEachInstr(g, func(in ssa.Instruction) {
+		if mu, ok := in.(*ssa.MapUpdate); ok {
+			if ld, ok := mu.Map.(*ssa.UnOp); ok {
+				if ld.X == ssa.Value(recv) {
+					w = true
+				}
+				if fa, ok := ld.X.(*ssa.FieldAddr); ok && fa.X == ssa.Value(recv) {
+					w = true
+				}
+			}
+		}
+	})
+	return w
+}
+
+// R13.10: schema-guided coercion walks the resolved schema type; every switch over that sum in the coercion code names
+// every kind (a helper that forgets sets skips coercion for entity types whose only implicit-form members are sets).
+func c13CoercionExhaustive(p *Prog, r *Report, rule string) {
+	it := p.namedType(pResolved, "IsType")
+	if it == nil {
+		r.Anchor(rule, "resolved.IsType")
+		return
+	}
+	n := 0
+	for _, ti := range p.typeSwitches(pXTypes) {
+		if ti.Sealed.Named.Obj() == it.Obj() {
+			n++
+			p.requireExhaustive(r, rule, ti)
+		}
+	}
+	if n == 0 {
+		r.Undec(rule, "exptypes:type-switches", "-", "no switch over the resolved schema type found in x/exp/types")
 	}
 }
